@@ -64,6 +64,8 @@ def correspondence(ctx, batch):
             samples = [{"g": 1}, {"f": "ok"}, {"f": "x" * rng.choice([19, 20, 25])}][::rng.choice([1, -1])]
         elif rng.random() < 0.1:
             samples = [{"f": ["w%dq" % j for j in range(rng.choice([2, 3, 9, 15]))] * rng.choice([2, 8, 9])}]
+        elif rng.random() < 0.1:
+            samples = [{"items": [{"f": a, "g": 1}, {"f": b, "g": 1}]} for a, b in (("a", "b"), ("c", "d"), ("e", rng.choice(["f", "x" * 20])))]
         stages.stage_generate(batch, samples, registry)
         job = common.gen_job(rng)
         job["maxLit"] = rng.randint(0, 16)
@@ -91,7 +93,13 @@ def find_literals(tp, out):
 
 def check_case(strings, with_null, job, registry, absent_at=None, nest=False, container=None):
     samples = [{"f": s, "g": 1} for s in strings] + ([{"f": None, "g": 1}] if with_null else [])
-    if container:
+    if container == "objlist":
+        # the position sits in objects that are members of a list (two per document, several documents): every document's
+        # strings must reach the literal
+        chunks = [strings[k:k + 2] for k in range(0, len(strings), 2)]
+        samples = [{"items": [{"f": x, "g": 1} for x in ch] + ([{"f": ch[0], "g": 1}] if len(ch) == 1 else []), "top": 1}
+                   for ch in chunks]
+    elif container:
         # the position is the element of ONE list holding all the strings, each `container` times
         samples = [{"f": list(strings) * container, "g": 1}]
     if absent_at is not None:
@@ -104,6 +112,11 @@ def check_case(strings, with_null, job, registry, absent_at=None, nest=False, co
     ns = real.load_module(text)
     cls = ns["Root"]
     chain = []
+    if container == "objlist":
+        found = [(c, ch) for q, c, ch in real.collect_classes(ns) if c.__name__ == "Item"]
+        if not found:
+            return {"kind": "module-does-not-load", "observed": "class Item not found", "text": text}
+        cls, chain = found[0]
     if nest:
         found = [(c, ch) for q, c, ch in real.collect_classes(ns) if c.__name__ == "Inner"]
         if not found:
@@ -111,7 +124,7 @@ def check_case(strings, with_null, job, registry, absent_at=None, nest=False, co
         cls, chain = found[0]
     ann = real.hints(cls, ns, chain)
     name = "f"
-    if container and typing.get_origin(ann[name]) not in (list, typing.List):
+    if container and container != "objlist" and typing.get_origin(ann[name]) not in (list, typing.List):
         return {"kind": "module-does-not-load", "observed": f"list field annotated {ann[name]!r}", "text": text}
     lits = find_literals(ann[name], [])
     P = plain_strings(registry, strings)
@@ -167,6 +180,10 @@ def falsify(ctx):
             strings = ["w%dq" % j for j in range(rng.choice([2, 3, 5, 9, 15]))]
             container, with_null, absent_at = rng.choice([2, 4, 8, 9]), False, None
             job["maxLit"] = rng.choice([10, 16, 20])
+        if i >= len(sweep) and container is None and rng.random() < 0.12:
+            container, with_null, absent_at, nest = "objlist", False, None, False
+            if rng.random() < 0.5:
+                strings = ["a", "b", "c", "d", rng.choice(["e", "x" * 20, "f"])][:rng.randint(3, 5)]
         try:
             hit = check_case(strings, with_null, job, registry, absent_at, nest, container)
         except stages.TooCostly:
